@@ -15,6 +15,18 @@ CLAIMED = {
              "release profile (setter debug_assert!s off). Modelled, not verified: Place/Segment accessors as Lean functions.",
         technique="Lean 4 theorems (bv_decide bit lemmas + case analysis) + exhaustive model/impl correspondence",
         design="§4 C18"),
+    "C04": dict(
+        text="Machine-checked theorems about a line-by-line Lean model of SubRule::match_modifiers / Segment::apply_seg_mods: a binary feature "
+             "matches iff present-and-equal (absent sub-node matches neither polarity), a whole binary matrix matches iff every named feature has "
+             "the named value, +F sets / creates, -F clears / is a no-op on an absent sub-node, the frame law (other features unchanged; created "
+             "sub-node has its other features negative), node removal/addition, rejection of major nodes and +place, and alpha bind/use/carry "
+             "laws (αF binds F's value, αG/-αG apply it or its inverse). For every bundle (2^40), not only the 365 bases. Tied to the code by an "
+             "exhaustive correspondence over the property's finite space through the real rule pipeline (227k ops quick).",
+        note="Trusted: Lean kernel, standard axioms, bv_decide certificate axioms of the C18 bit layer. Modelled not verified: match/apply functions "
+             "(hand port, compared exhaustively on one-segment words). The harness also evaluates an independent 30-line Rust reference model "
+             "written from the manual against the implementation.",
+        technique="Lean 4 theorems over ported modifier model + exhaustive line-protocol correspondence + reference-model search",
+        design="§4 C04"),
     "C10": dict(
         text="Theorems over an abstract-interpreter model of the runner (lib.rs:185-337), for rule lists and word lists of any length: "
              "applying G1++G2 is applying G1 then G2 (errors included), a result depends only on the flattened rule sequence (regrouping and "
